@@ -64,7 +64,7 @@ pub fn pair_oracle(p: &Pair) -> Verdict {
     )
 }
 
-fn random_pair() -> impl Strategy<Value = Pair> {
+pub fn random_pair() -> impl Strategy<Value = Pair> {
     let v = || arb_value(GenCfg { heavy: false, depth: 4, size: 20, ..GenCfg::std() });
     prop_oneof![
         // independent values
@@ -94,8 +94,12 @@ pub fn run(run: &mut Run) {
     let it = (0..n * n).map(|k| Pair { a: items[k / n].clone(), b: items[k % n].clone() });
     run.enumerate("corner-pairs", it, pair_oracle);
     run.prop("random-pairs", random_pair, run.tier.pick(40_000, 3_000_000), pair_oracle);
+    if run.tier == crate::engine::Tier::Thorough {
+        // coverage-guided byte fuzzing of the same oracle (libFuzzer, structure-aware through fuzzde); see fuzzbridge.rs
+        crate::fuzzbridge::campaign(run, "c12", 3_000_000, 400);
+    }
 }
 
 pub fn replays() -> Vec<ReplayEntry> {
-    vec![replay_entry("corner-pairs", pair_oracle), replay_entry("random-pairs", pair_oracle)]
+    vec![replay_entry("fuzz:c12", crate::fuzzbridge::eval_input), replay_entry("corner-pairs", pair_oracle), replay_entry("random-pairs", pair_oracle)]
 }
